@@ -100,6 +100,9 @@ def run_shard(tier, shard, res: Result):
             pw = rand_text(rng, 0, 20)
             if rng.random() < 0.3:
                 authz = rand_text(rng, 1, 10)
+        if rng.random() < 0.12:
+            authz = login  # the authorisation id given explicitly although equal to the login
+            res.count("authz-equals-login")
         verdict = rng.choice(["accept", "accept", "wrong-password", "NO", "BYE"])
         users = {login.encode(): (pw if verdict != "wrong-password" else pw + "x").encode()}
         if authz:
@@ -190,6 +193,8 @@ def run_shard(tier, shard, res: Result):
                     elif want == "DIGEST-MD5":
                         if c["login"] != lb:
                             problems.append(("identity-differs", want))
+                        if c.get("authzid", b"") != ab:
+                            problems.append(("authzid-differs", want))
                     else:
                         if c["login"] != lb:
                             problems.append(("identity-differs", want))
